@@ -371,7 +371,7 @@ func VH_C04_WriteReadWrite() {
 	for c := 0; c < n; c++ {
 		st := nondetInt64(0, 10*3600*1000000000-1)
 		en := nondetInt64(0, 10*3600*1000000000-1)
-		vtimeClass(st, (k*7+c)%24&^1)  // hours below 10: SSA writes them as one digit
+		vtimeClass(st, (k*7+c)%24&^1) // hours below 10: SSA writes them as one digit
 		vtimeClass(en, (k*11+5*c)%24&^1)
 		text := []string{"Hello, world", "plain"}[(k+c)%2]
 		it := &Item{StartAt: time.Duration(st), EndAt: time.Duration(en), Style: s.Styles["S1"], InlineStyle: &StyleAttributes{SSAMarked: vboolp(c == 0), SSALayer: vintp(c)},
